@@ -45,7 +45,7 @@ def observe(P, seed, n_cases):
                 env = []
                 def res(r):
                     if r["c"] == "const": return pg.decode(r["v"])
-                    if r["c"] == "param": return a[r["n"] - 1]
+                    if r["c"] == "param": return prog_run.index(a[r["n"] - 1], r["path"])
                     if r["c"] == "site": return prog_run.index(env[r["n"] - 1], r["path"])
                     return None
                 for s in PP["sites"]:
@@ -72,7 +72,7 @@ def observe(P, seed, n_cases):
         single = rng.random() < 0.4
         outs = rng.sample(range(1, nsites + 1), 1 if single else min(nsites, rng.randint(1, 3)))
         if ell:
-            vals = [rng.choice(pg.INT_VALUES) if P["ptypes"][p] == "int" else rng.choice(pg.FLAG_VALUES) for p in range(len(P["params"]))]
+            vals = [pg.value_for(P["ptypes"][p], rng) for p in range(len(P["params"]))]
         else:
             vals = []
             for j in ins:
